@@ -24,7 +24,11 @@ type NextIterator struct {
 	rnd *rand.Rand
 }
 
+// Rand is called concurrently by all instances sharing the scenario: *rand.Rand is not
+// safe for concurrent use, so it is guarded by the same mutex as the [next] counters.
 func (n *NextIterator) Rand(length int) int {
+	n.mx.Lock()
+	defer n.mx.Unlock()
 	return n.rnd.Intn(length)
 }
 
